@@ -45,36 +45,18 @@ func vhDescDig(mt string, d digest.Digest) types.Descriptor {
 	return types.Descriptor{MediaType: mt, Digest: d, Size: 2}
 }
 
-// VH_C04_Put: one arbitrary manifest PUT in four worlds.
+// VH_C04_Put: one arbitrary manifest PUT in five worlds.
 func VH_C04_Put() {
 	vhReset()
-	s := New(vhConf(vhStore("dir")))
 	conf, layer, other := []byte("{}"), []byte("xy"), []byte("y")
 	cd := vhDesc(types.MediaTypeOCI1ImageConfig, conf)
 	ld := vhDesc(types.MediaTypeOCI1Layer, layer)
 	img1 := vhImage(cd, []types.Descriptor{ld}, nil, "", nil)
 	idx1 := vhIndexDoc([]types.Descriptor{vhDesc(types.MediaTypeOCI1Manifest, img1)}, nil, "")
-	level := vh.Choice("world", 4)
-	// world 0: empty; 1: blobs+image+index in a; 2: the same only in b; 3: a + referrer
-	switch level {
-	case 1, 3:
-		vhPushBlob(s, "a", conf)
-		vhPushBlob(s, "a", layer)
-		vhPutManifest(s, "a", "t1", types.MediaTypeOCI1Manifest, img1)
-		vhPutManifest(s, "a", "ti", types.MediaTypeOCI1ManifestList, idx1)
-	case 2:
-		vhPushBlob(s, "b", conf)
-		vhPushBlob(s, "b", layer)
-		vhPutManifest(s, "b", "t1", types.MediaTypeOCI1Manifest, img1)
-		vhPutManifest(s, "b", "ti", types.MediaTypeOCI1ManifestList, idx1)
-	}
-	vhPushBlob(s, "b", other)
 	subj := vhDesc(types.MediaTypeOCI1Manifest, img1)
 	art0 := vhImage(vhDesc(types.MediaTypeOCI1Empty, conf), []types.Descriptor{ld}, &subj, "application/vnd.test.at0", nil)
-	if level == 3 {
-		vhPutManifest(s, "a", digest.Canonical.FromBytes(art0).String(), types.MediaTypeOCI1Manifest, art0)
-	}
-	inA := func(l int) bool { return l == 1 || l == 3 }
+	inA := func(l int) bool { return l == 1 || l == 3 }               // config and layer present in a
+	img1InA := func(l int) bool { return l == 1 || l == 3 || l == 4 } // manifests img1/idx1 present in a
 	never := func(int) bool { return false }
 	always := func(int) bool { return true }
 	noField := types.Manifest{SchemaVersion: 2, Config: cd, Layers: []types.Descriptor{ld}}
@@ -85,9 +67,9 @@ func VH_C04_Put() {
 		{"img2", vhImage(cd, []types.Descriptor{ld}, nil, "", map[string]string{"v": "2"}), "image", types.MediaTypeOCI1Manifest, inA},
 		{"img-missing-layer", vhImage(cd, []types.Descriptor{vhDesc(types.MediaTypeOCI1Layer, []byte("missing"))}, nil, "", nil), "image", types.MediaTypeOCI1Manifest, never},
 		{"img-config-only-in-b", vhImage(vhDesc(types.MediaTypeOCI1ImageConfig, other), []types.Descriptor{ld}, nil, "", nil), "image", types.MediaTypeOCI1Manifest, never},
-		{"idx-present", vhIndexDoc([]types.Descriptor{vhDesc(types.MediaTypeOCI1Manifest, img1)}, nil, "application/vnd.test.idx"), "index", types.MediaTypeOCI1ManifestList, inA},
+		{"idx-present", vhIndexDoc([]types.Descriptor{vhDesc(types.MediaTypeOCI1Manifest, img1)}, nil, "application/vnd.test.idx"), "index", types.MediaTypeOCI1ManifestList, img1InA},
 		{"idx-missing-child", vhIndexDoc([]types.Descriptor{vhDesc(types.MediaTypeOCI1Manifest, []byte("nochild"))}, nil, ""), "index", types.MediaTypeOCI1ManifestList, never},
-		{"idx-nested", vhIndexDoc([]types.Descriptor{vhDesc(types.MediaTypeOCI1ManifestList, idx1)}, nil, ""), "index", types.MediaTypeOCI1ManifestList, inA},
+		{"idx-nested", vhIndexDoc([]types.Descriptor{vhDesc(types.MediaTypeOCI1ManifestList, idx1)}, nil, ""), "index", types.MediaTypeOCI1ManifestList, img1InA},
 		{"art-image", vhImage(vhDesc(types.MediaTypeOCI1Empty, conf), []types.Descriptor{ld}, &subj, "application/vnd.test.at1", map[string]string{"n": "1"}), "image", types.MediaTypeOCI1Manifest, inA},
 		{"art-index", vhIndexDoc(nil, &subj, "application/vnd.test.at2"), "index", types.MediaTypeOCI1ManifestList, always},
 		{"img-no-mediatype", noFieldB, "image", "", inA},
@@ -101,26 +83,73 @@ func VH_C04_Put() {
 		{"img-layer-truncated-digest", vhImage(cd, []types.Descriptor{ld, vhDescDig(types.MediaTypeOCI1Layer, ld.Digest[:len(ld.Digest)-4])}, nil, "", nil), "image", types.MediaTypeOCI1Manifest, never},
 		{"img-layer-md5-digest", vhImage(cd, []types.Descriptor{vhDescDig(types.MediaTypeOCI1Layer, "md5:d41d8cd98f00b204e9800998ecf8427e"), ld}, nil, "", nil), "image", types.MediaTypeOCI1Manifest, never},
 		{"img-config-empty-digest", vhImage(vhDescDig(types.MediaTypeOCI1ImageConfig, ""), []types.Descriptor{ld}, nil, "", nil), "image", types.MediaTypeOCI1Manifest, never},
+		// the image that is already stored and tagged, pushed again (retag): its layer must still exist
+		{"img1-again", img1, "image", types.MediaTypeOCI1Manifest, inA},
 		{"idx-child-uppercase-digest", vhIndexDoc([]types.Descriptor{vhDesc(types.MediaTypeOCI1Manifest, img1), vhDescDig(types.MediaTypeOCI1Manifest, digest.Digest("sha256:"+strings.ToUpper(digest.Canonical.FromBytes(img1).Encoded())))}, nil, ""), "index", types.MediaTypeOCI1ManifestList, never},
 	}
+	// every choice is made before the (expensive) world is built
+	level := vh.Choice("world", 5)
 	doc := docs[vh.Choice("doc", vh.Param("DOCS", len(docs)))]
 	dBody := digest.Canonical.FromBytes(doc.body)
 	refs := []string{"t1", "new", strings.Repeat("t", 128), strings.Repeat("t", 129), "-bad", dBody.String(),
 		digest.SHA512.FromBytes(doc.body).String(), digest.Canonical.FromBytes(img1).String() + "0", vhBadDigest, digest.Canonical.FromBytes([]byte("unrelated")).String()}
 	ri := vh.Choice("ref", len(refs))
+	qd := vh.Choice("qdigest", 3)
+	cts := []string{types.MediaTypeOCI1Manifest, types.MediaTypeOCI1ManifestList, types.MediaTypeDocker2Manifest, types.MediaTypeDocker2ManifestList, "", "text/plain", types.MediaTypeOCI1Manifest + "; charset=utf-8"}
+	cti := vh.Choice("ctype", len(cts))
+	bodyAsBlob := false
+	if !doc.refsOK(level) && doc.kind != "none" {
+		bodyAsBlob = vh.Bool("bodyStoredAsBlob")
+	}
+	if vh.Param("FULL", 0) == 0 && level != 1 {
+		// quick tier: the full product reference x ?digest x Content-Type is explored in
+		// world 1; in the other worlds the reference is a new tag or the body digest, no
+		// ?digest parameter, and the Content-Type is the document's own or absent
+		vh.Assume(ri == 1 || ri == 5)
+		vh.Assume(qd == 0)
+		vh.Assume(cts[cti] == "" || cts[cti] == doc.field)
+	}
+	vh.Assume(!bodyAsBlob || level <= 1)
+	s := New(vhConf(vhStore("dir")))
+	// world 0: empty; 1: blobs+image+index in a; 2: the same only in b; 3: a + referrer;
+	// 4: as 1, then the layer blob deleted (the image and index entries remain)
+	switch level {
+	case 1, 3, 4:
+		vhPushBlob(s, "a", conf)
+		vhPushBlob(s, "a", layer)
+		vhPutManifest(s, "a", "t1", types.MediaTypeOCI1Manifest, img1)
+		vhPutManifest(s, "a", "ti", types.MediaTypeOCI1ManifestList, idx1)
+	case 2:
+		vhPushBlob(s, "b", conf)
+		vhPushBlob(s, "b", layer)
+		vhPutManifest(s, "b", "t1", types.MediaTypeOCI1Manifest, img1)
+		vhPutManifest(s, "b", "ti", types.MediaTypeOCI1ManifestList, idx1)
+	}
+	if level == 4 {
+		vh.Assert(vhDo(s, "DELETE", "/v2/a/blobs/"+ld.Digest.String(), nil, nil, nil).Status() == 202, "C04.setup")
+	}
+	vhPushBlob(s, "b", other)
+	if level == 3 {
+		vhPutManifest(s, "a", digest.Canonical.FromBytes(art0).String(), types.MediaTypeOCI1Manifest, art0)
+	}
+	// the bytes of an incomplete document may already be stored in a as a plain blob
+	// (uploaded through the blob API): that does not make it a validated manifest
+	if bodyAsBlob {
+		vhPushBlob(s, "a", doc.body)
+		vh.Tag("bodyStoredAsBlob", "true")
+	}
 	ref := refs[ri]
 	refValid := ri <= 2 || ri == 5 || ri == 6
 	q := vhQ()
 	qOK := true
-	switch vh.Choice("qdigest", 3) {
+	switch qd {
 	case 1:
 		q.Set("digest", dBody.String())
 	case 2:
 		q.Set("digest", digest.Canonical.FromBytes([]byte("unrelated")).String())
 		qOK = ri >= 5 // a digest reference overrides the parameter
 	}
-	cts := []string{types.MediaTypeOCI1Manifest, types.MediaTypeOCI1ManifestList, types.MediaTypeDocker2Manifest, types.MediaTypeDocker2ManifestList, "", "text/plain", types.MediaTypeOCI1Manifest + "; charset=utf-8"}
-	ct := cts[vh.Choice("ctype", len(cts))]
+	ct := cts[cti]
 	hdr := vhHdr()
 	if ct != "" {
 		hdr.Set("Content-Type", ct)
